@@ -34,3 +34,13 @@ require github.com/cloudflare/circl v1.6.4 // indirect
 require github.com/pkg/errors v0.9.1 // indirect
 
 require golang.org/x/crypto v0.54.0 // indirect
+
+require go.uber.org/zap v1.28.0
+
+require github.com/cenkalti/backoff/v4 v4.3.0 // indirect
+
+require go.uber.org/multierr v1.11.0 // indirect
+
+require golang.org/x/sync v0.22.0 // indirect
+
+require golang.org/x/time v0.15.0 // indirect
